@@ -168,6 +168,10 @@ func (s *SourceSplitter) Checkpoint() []byte {
 
 // listAllShards paginates through all shards for a given streamARN, starting after exclusiveStartShardID.
 func (s *SourceSplitter) listAllShards(ctx context.Context, exclusiveStartShardID string) ([]SourceSplitterShard, error) {
+	if shards, ok := verifListShards(exclusiveStartShardID); ok {
+		return shards, nil
+	}
+
 	var shards []SourceSplitterShard
 	var nextToken *string
 	for {
